@@ -709,6 +709,13 @@ def in_regime(case):
 
 
 def check_spec(case, io, mode):
+    try:
+        return check_spec_(case, io, mode)
+    except (KeyError, TypeError, IndexError) as e:      # a result of the wrong shape is a failure, not a crash
+        return f"unreadable result {str(io)[:200]}: {type(e).__name__} {e}"
+
+
+def check_spec_(case, io, mode):
     if not in_regime(case):
         return None
     if isinstance(io, dict) and "err" in io:
